@@ -2180,6 +2180,14 @@ class Interp(object):
                 for v in vals:
                     t = t + to_rat(v)
                 return t
+            if name == 'sum' and vals and len(args) == 1 and all(
+                    isinstance(v, (Vec, PVec)) for v in vals):
+                # 0 + v0 + v1 + ...: the start value 0 is absorbed by the
+                # first element's __radd__ (x + 0 == x, property C01)
+                t = vals[0]
+                for v in vals[1:]:
+                    t = self.binop(ast.Add, t, v)
+                return t
         if name == 'bool':
             return self.truth_value(args[0], node)
         if name == 'print':
